@@ -15,7 +15,18 @@ const Layer = "m"
 
 // the parts of package sync that need no cooperation with the scheduler are the real ones (an EDIT of garr may use any of them and
 // must still build)
-type WaitGroup = sync.WaitGroup
+
+// WaitGroup is the real one between chaos points (see vsched.Chaos)
+type WaitGroup struct{ real sync.WaitGroup }
+
+func (w *WaitGroup) Add(n int) { vsched.Chaos(); w.real.Add(n); vsched.Chaos() }
+func (w *WaitGroup) Done()     { vsched.Chaos(); w.real.Done() }
+func (w *WaitGroup) Wait()     { vsched.Chaos(); w.real.Wait(); vsched.Chaos() }
+func (w *WaitGroup) Go(f func()) {
+	w.Add(1)
+	go func() { defer w.Done(); f() }()
+}
+
 type Once = sync.Once
 type Cond = sync.Cond
 type Map = sync.Map
@@ -44,7 +55,9 @@ func lg(kind string, m *RWMutex) {
 
 func (m *RWMutex) Lock() {
 	if !vsched.LayerOn(Layer) {
+		vsched.Chaos()
 		m.real.Lock()
+		vsched.Chaos()
 		return
 	}
 	if m.writer || m.readers > 0 {
@@ -61,7 +74,9 @@ func (m *RWMutex) Lock() {
 
 func (m *RWMutex) Unlock() {
 	if !vsched.LayerOn(Layer) {
+		vsched.Chaos()
 		m.real.Unlock()
+		vsched.Chaos()
 		return
 	}
 	vsched.Point()
@@ -76,7 +91,9 @@ func (m *RWMutex) Unlock() {
 
 func (m *RWMutex) RLock() {
 	if !vsched.LayerOn(Layer) {
+		vsched.Chaos()
 		m.real.RLock()
+		vsched.Chaos()
 		return
 	}
 	if m.writer {
@@ -93,7 +110,9 @@ func (m *RWMutex) RLock() {
 
 func (m *RWMutex) RUnlock() {
 	if !vsched.LayerOn(Layer) {
+		vsched.Chaos()
 		m.real.RUnlock()
+		vsched.Chaos()
 		return
 	}
 	vsched.Point()
@@ -111,6 +130,8 @@ func (m *RWMutex) RUnlock() {
 // TryLock / TryRLock never block: one scheduling point, then the outcome of the moment
 func (m *RWMutex) TryLock() bool {
 	if !vsched.LayerOn(Layer) {
+		vsched.Chaos()
+		defer vsched.Chaos()
 		return m.real.TryLock()
 	}
 	vsched.Point()
@@ -125,6 +146,8 @@ func (m *RWMutex) TryLock() bool {
 
 func (m *RWMutex) TryRLock() bool {
 	if !vsched.LayerOn(Layer) {
+		vsched.Chaos()
+		defer vsched.Chaos()
 		return m.real.TryRLock()
 	}
 	vsched.Point()
